@@ -56,6 +56,8 @@ def gen_case(rng, kind):
         cols = cols[::-1]
     spec = gf.frame_spec(rng, cols, n, gf.INDEX_KINDS[int(rng.integers(len(gf.INDEX_KINDS)))])
     spec["geometry"] = "g1"
+    if rng.random() < 0.06:
+        spec["reserved_named_columns"] = ["hilbert_distance"]
     return {"spec": spec, "kind": kind, "parts": [int(rng.integers(1, 6)), int(rng.integers(1, 6)) if rng.random() < 0.8 else 12],
             "filter": bool(rng.random() < 0.35), "touch_cache": bool(rng.random() < 0.6), "presort": bool(rng.random() < 0.2),
             "repack": int(rng.choice([3, 7, 12])) if rng.random() < 0.2 else 0,
